@@ -216,7 +216,7 @@ func (ex *Exec) modHeapKeys(fc *FuncContract, fn *ssa.Function) []string {
 				ex.vc.heapSorts[vk] = vs
 			}
 		}
-		for k := range whole {
+		for _, k := range sortedKeys(whole) {
 			keys = append(keys, k)
 		}
 	}()
@@ -653,7 +653,7 @@ func (fr *Frame) enterLoop(li *loopInfo, cur *State) *State {
 	ws := &writeSet{cells: map[*ssa.Alloc]bool{}, heaps: map[string]string{}, heapCells: map[*ssa.Alloc]bool{}}
 	ex.scanWrites(fr.fn, li.body, ws, 0, map[*ssa.Function]bool{})
 	h := cur.clone()
-	for a := range ws.cells {
+	for _, a := range sortedAllocs(ws.cells) {
 		v, live := h.cells[a]
 		if !live {
 			continue
@@ -709,7 +709,8 @@ func (fr *Frame) enterLoop(li *loopInfo, cur *State) *State {
 			h.heaps[k] = vc.fresh("hl_"+k, vc.heapSorts[k])
 		}
 	}
-	for g, v := range h.ghosts {
+	for _, g := range sortedKeys(h.ghosts) {
+		v := h.ghosts[g]
 		if g == li.seenName {
 			h.ghosts[g] = TVal{vc.fresh("seen", S.sortOf(v.typ)), v.typ}
 		}
